@@ -1,11 +1,17 @@
 (* C18_Model.v — After, Before, Once, RType.Retry, RType.RetryWithDelay.
-   Transcribed statement by statement from /repo/func.go (with the one repair
-   of fixes/builder-c18c17: Once calls the callback once, stores that value and
-   returns it), and the part of /repo/cache/cache.go that Before/Once use
-   (Get, Set, add on the single hard-coded key "func", Delete).
+   Transcribed statement by statement from /repo/func.go (with the repairs
+   bc2009d: Once calls the callback once, stores that value and returns it;
+   ddacf7d: After and Before stop decrementing their counter at the smallest
+   value of its type), and the part of /repo/cache/cache.go that Before/Once use
+   (Get, Set, add on the single hard-coded key "func", Delete, Flush).
 
    Conventions (DESIGN §3):
-   * Go ints are unbounded Z; the result type T of the callbacks is Z.
+   * The caller's counter *n has a signed integer type V of some width
+     (constraints.Signed): the model takes the smallest value [lo] of that type
+     as a parameter (int / int64: min64; int8: -128) and the arithmetic the code
+     performs on the counter — m := *n - 1 — WRAPS within the type ([wrapT]).
+     Every other int of the code (attempt of Retry, bounded by n) cannot
+     overflow and is a plain Z.  The result type T of the callbacks is Z.
    * The callback is a stream: its k-th invocation (k = 0, 1, ...) returns
      [fn k].  Every wrapper threads the invocation counter [k], so the model
      says how many results were consumed and by which call.
@@ -17,22 +23,47 @@
 From Gogu Require Import Base.
 Local Open Scope Z_scope.
 
+(* --------------------------------------------- Go signed-integer arithmetic *)
+
+(* a signed type with smallest value lo (< 0) has the values lo .. -lo-1;
+   arithmetic on it wraps around *)
+Definition is_int (lo n : Z) : Prop := lo <= n <= - lo - 1.
+Definition wrapT (lo z : Z) : Z := (z - lo) mod (2 * - lo) + lo.
+Definition min64 : Z := -9223372036854775808.   (* math.MinInt *)
+Definition max64 : Z := 9223372036854775807.    (* math.MaxInt *)
+Definition min8 : Z := -128.                    (* math.MinInt8 *)
+
+(* func dec(n *V) { if m := *n - 1; m < *n { *n = m } }      (repair ddacf7d)
+   the counter is decremented unless it already holds the smallest value of
+   its type (there *n - 1 wraps to the largest value, which is not < *n) *)
+Definition dec (lo n : Z) : Z :=
+  let m := wrapT lo (n - 1) in if m <? n then m else n.
+
+(* the code as shipped before ddacf7d:  *n--   (wraps at the smallest value) *)
+Definition dec_orig (lo n : Z) : Z := wrapT lo (n - 1).
+
 (* ------------------------------------------------------------------ After *)
 
-(* func After(n *V, fn func()) { if *n < 1 { fn() }; *n-- }
-   returns (number of invocations made by this call, new *n) *)
-Definition after_call (n : Z) : nat * Z :=
-  ((if n <? 1 then 1%nat else 0%nat), n - 1).
+(* func After(n *V, fn func()) { if *n < 1 { fn() }; dec(n) }
+   returns (number of invocations made by this call, new *n);
+   [d] is the decrement: [dec lo] for the code as it is, [dec_orig lo] for the
+   code as shipped (used only by the ..._unrepaired_refuted witnesses) *)
+Definition after_call_with (d : Z -> Z) (n : Z) : nat * Z :=
+  ((if n <? 1 then 1%nat else 0%nat), d n).
 
 (* m consecutive calls on one counter: per-call invocation counts, final *n *)
-Fixpoint after_calls (m : nat) (n : Z) : list nat * Z :=
+Fixpoint after_calls_with (d : Z -> Z) (m : nat) (n : Z) : list nat * Z :=
   match m with
   | O => ([], n)
   | S m' =>
-      let '(r, n1) := after_call n in
-      let '(rs, nf) := after_calls m' n1 in
+      let '(r, n1) := after_call_with d n in
+      let '(rs, nf) := after_calls_with d m' n1 in
       (r :: rs, nf)
   end.
+
+Definition after_call (lo : Z) : Z -> nat * Z := after_call_with (dec lo).
+Definition after_calls (lo : Z) : nat -> Z -> list nat * Z := after_calls_with (dec lo).
+Definition after_calls_orig (lo : Z) : nat -> Z -> list nat * Z := after_calls_with (dec_orig lo).
 
 (* ------------------------------------------------- the cache, key "func" *)
 
@@ -76,7 +107,7 @@ Definition c_set (c : cache) (v d : Z) (t : nat) : cache * nat :=
   | None => c_add c v d t1
   end.
 
-(* Delete("func") — used by the mixed histories only *)
+(* Delete("func") — used by the mixed histories only (Flush: c_flush below) *)
 Definition c_delete (c : cache) : cache := mkCache (c_def c) None.
 
 (* memo.Val(): the zero value on a nil item *)
@@ -93,11 +124,12 @@ Definition outcome := (nat * Z)%type.
 
 Variable fn : nat -> Z.
 
-(* *n--; if *n > 0 { return fn() }
+(* dec(n); if *n > 0 { return fn() }
    if *n == 0 { c.Set("func", fn(), DefaultExpiration) }
-   memo, _ = c.Get("func"); return memo.Val() *)
-Definition before_call (n : Z) (w : world) : outcome * Z * world :=
-  let n1 := n - 1 in
+   memo, _ = c.Get("func"); return memo.Val()
+   ([d] is the decrement, as for After) *)
+Definition before_call_with (d : Z -> Z) (n : Z) (w : world) : outcome * Z * world :=
+  let n1 := d n in
   if 0 <? n1 then
     ((1%nat, fn (w_k w)), n1, mkWorld (w_cache w) (w_tick w) (S (w_k w)))
   else
@@ -144,12 +176,12 @@ Definition once_call_orig (w : world) : outcome * world :=
 (* ---------------------------------------------------------- call histories *)
 
 (* m consecutive Before calls on one counter and one cache *)
-Fixpoint before_calls (m : nat) (n : Z) (w : world) : list outcome * Z * world :=
+Fixpoint before_calls_with (d : Z -> Z) (m : nat) (n : Z) (w : world) : list outcome * Z * world :=
   match m with
   | O => ([], n, w)
   | S m' =>
-      let '(o, n1, w1) := before_call n w in
-      let '(os, nf, wf) := before_calls m' n1 w1 in
+      let '(o, n1, w1) := before_call_with d n w in
+      let '(os, nf, wf) := before_calls_with d m' n1 w1 in
       (o :: os, nf, wf)
   end.
 
@@ -162,32 +194,45 @@ Fixpoint once_calls (m : nat) (w : world) : list outcome * world :=
       (o :: os, wf)
   end.
 
-(* mixed histories: two Before counters A and B, Once, and Delete("func"),
-   all on ONE cache (they share the hard-coded key) *)
-Inductive mop := MBeforeA | MBeforeB | MOnce | MDelete.
+End WithClock.
 
-Record mstate := mkM { m_a : Z; m_b : Z; m_w : world }.
+Definition before_call (lo : Z) (clk fn : nat -> Z) := before_call_with clk fn (dec lo).
+Definition before_calls (lo : Z) (clk fn : nat -> Z) := before_calls_with clk fn (dec lo).
+Definition before_calls_orig (lo : Z) (clk fn : nat -> Z) := before_calls_with clk fn (dec_orig lo).
 
-Definition mstep (s : mstate) (o : mop) : outcome * mstate :=
+(* mixed histories: two Before counters A and B, Once, Delete("func"),
+   Flush() and time.Sleep(d), all on ONE cache (the wrappers share the
+   hard-coded key).  Sleeping does not touch the cache: it moves every later
+   reading of the clock forward by d — the state carries the total time slept
+   ([m_skew]) and the operations read the clock [fun i => clk i + m_skew]. *)
+Inductive mop := MBeforeA | MBeforeB | MOnce | MDelete | MFlush | MSleep (d : Z).
+
+Record mstate := mkM { m_a : Z; m_b : Z; m_skew : Z; m_w : world }.
+
+(* Flush: c.items = make(map[K]*Item[V]) — on the one key, the same as Delete *)
+Definition c_flush (c : cache) : cache := mkCache (c_def c) None.
+
+Definition mstep (lo : Z) (clk fn : nat -> Z) (s : mstate) (o : mop) : outcome * mstate :=
+  let now := fun i : nat => clk i + m_skew s in
+  let with_cache c := mkM (m_a s) (m_b s) (m_skew s) (mkWorld c (w_tick (m_w s)) (w_k (m_w s))) in
   match o with
-  | MBeforeA => let '(r, n1, w1) := before_call (m_a s) (m_w s) in (r, mkM n1 (m_b s) w1)
-  | MBeforeB => let '(r, n1, w1) := before_call (m_b s) (m_w s) in (r, mkM (m_a s) n1 w1)
-  | MOnce => let '(r, w1) := once_call (m_w s) in (r, mkM (m_a s) (m_b s) w1)
-  | MDelete =>
-      ((0%nat, 0), mkM (m_a s) (m_b s)
-                      (mkWorld (c_delete (w_cache (m_w s))) (w_tick (m_w s)) (w_k (m_w s))))
+  | MBeforeA => let '(r, n1, w1) := before_call lo now fn (m_a s) (m_w s) in (r, mkM n1 (m_b s) (m_skew s) w1)
+  | MBeforeB => let '(r, n1, w1) := before_call lo now fn (m_b s) (m_w s) in (r, mkM (m_a s) n1 (m_skew s) w1)
+  | MOnce => let '(r, w1) := once_call now fn (m_w s) in (r, mkM (m_a s) (m_b s) (m_skew s) w1)
+  | MDelete => ((0%nat, 0), with_cache (c_delete (w_cache (m_w s))))
+  | MFlush => ((0%nat, 0), with_cache (c_flush (w_cache (m_w s))))
+  | MSleep d => ((0%nat, 0), mkM (m_a s) (m_b s) (m_skew s + Z.max 0 d) (m_w s))
   end.
 
-Fixpoint mrun (ops : list mop) (s : mstate) : list outcome * mstate :=
+Fixpoint mrun (lo : Z) (clk fn : nat -> Z) (ops : list mop) (s : mstate) : list outcome * mstate :=
   match ops with
   | [] => ([], s)
   | o :: ops' =>
-      let '(r, s1) := mstep s o in
-      let '(rs, sf) := mrun ops' s1 in
+      let '(r, s1) := mstep lo clk fn s o in
+      let '(rs, sf) := mrun lo clk fn ops' s1 in
       (r :: rs, sf)
   end.
 
-End WithClock.
 
 Definition world0 (def : Z) : world := mkWorld (cache_new def) 0 0.
 
@@ -220,9 +265,11 @@ Fixpoint retry_loop (fuel : nat) (n : Z) (ok : nat -> bool) (attempt err : Z) (k
 Definition retry_fuel (n : Z) : nat := S (Z.to_nat n).
 
 (* if n < 0 { return attempt, fmt.Errorf(...) } ; loop *)
-Definition retry (n : Z) (ok : nat -> bool) : option retry_result :=
+Definition retry_with (fuel : nat) (n : Z) (ok : nat -> bool) : option retry_result :=
   if n <? 0 then Some (mkRetry 0 err_arg 0)
-  else retry_loop (retry_fuel n) n ok 0 0 0.
+  else retry_loop fuel n ok 0 0 0.
+
+Definition retry (n : Z) (ok : nat -> bool) : option retry_result := retry_with (retry_fuel n) n ok.
 
 (* RetryWithDelay.  Clock oracles, one value per event of iteration j:
      t_inv j  : the time.Since(start) read handed to the j-th invocation
@@ -306,3 +353,52 @@ Definition retry_spec (argcheck : bool) (n : Z) (ok : nat -> bool) : retry_resul
        | Some f => mkRetry (Z.of_nat f) 0 (S f)
        | None => mkRetry n (if n =? 0 then 0 else errid (Z.to_nat n - 1)) (Z.to_nat n)
        end.
+
+(* Histories on ONE shared cache (Before on two counters, Once, Delete, Flush,
+   Sleep): the reference machine.  It has no clock and no deadlines: the cache
+   is an abstract memo cell that is either empty or holds a value; whoever
+   finds it empty and wants to store, stores (cache.Set refuses to overwrite a
+   live entry, so the first writer wins); Delete and Flush empty it; so does a
+   sleep longer than a positive default expiry (sleeps that do not outlast the
+   expiry are outside the scope of this machine, see C18_shared_cache_refines_
+   memo_cell).  The invocation clauses of the property are visible directly:
+   Before runs iff its own counter is >= 1, whatever the cell holds; Once runs
+   iff the cell is empty.  Its counters are mathematical integers (x - 1); the
+   code's counters are those clamped at the smallest value of the type. *)
+Record sstate := mkS { s_a : Z; s_b : Z; s_memo : option Z; s_k : nat }.
+
+Definition s_before (fn : nat -> Z) (x : Z) (memo : option Z) (k : nat)
+  : outcome * Z * option Z * nat :=
+  if 1 <? x then ((1%nat, fn k), x - 1, memo, S k)
+  else if x =? 1 then
+    let memo' := match memo with Some _ => memo | None => Some (fn k) end in
+    ((1%nat, val_of memo'), x - 1, memo', S k)
+  else ((0%nat, val_of memo), x - 1, memo, k).
+
+Definition s_once (fn : nat -> Z) (memo : option Z) (k : nat) : outcome * option Z * nat :=
+  match memo with
+  | Some v => ((0%nat, v), memo, k)
+  | None => ((1%nat, fn k), Some (fn k), S k)
+  end.
+
+Definition sstep (def : Z) (fn : nat -> Z) (s : sstate) (o : mop) : outcome * sstate :=
+  match o with
+  | MBeforeA =>
+      let '(r, a1, memo1, k1) := s_before fn (s_a s) (s_memo s) (s_k s) in (r, mkS a1 (s_b s) memo1 k1)
+  | MBeforeB =>
+      let '(r, b1, memo1, k1) := s_before fn (s_b s) (s_memo s) (s_k s) in (r, mkS (s_a s) b1 memo1 k1)
+  | MOnce =>
+      let '(r, memo1, k1) := s_once fn (s_memo s) (s_k s) in (r, mkS (s_a s) (s_b s) memo1 k1)
+  | MDelete | MFlush => ((0%nat, 0), mkS (s_a s) (s_b s) None (s_k s))
+  | MSleep d =>
+      ((0%nat, 0), mkS (s_a s) (s_b s) (if (0 <? def) && (def <? d) then None else s_memo s) (s_k s))
+  end.
+
+Fixpoint srun (def : Z) (fn : nat -> Z) (ops : list mop) (s : sstate) : list outcome * sstate :=
+  match ops with
+  | [] => ([], s)
+  | o :: ops' =>
+      let '(r, s1) := sstep def fn s o in
+      let '(rs, sf) := srun def fn ops' s1 in
+      (r :: rs, sf)
+  end.
